@@ -200,6 +200,50 @@ def reviewedMemoWrites : List ((Nat × Nat × Nat) × WriteTag) :=
    -- setattr on the Reference/DataType being constructed (Import does not derive from reference._BaseModel)
    ((k! "reference.py", k! "_BaseModel.__init__", k! "self"), .dynamicOnOtherObject)]
 
+inductive CwdTag where
+  | insideChdirOutput   -- runs in the dynamic extent of `Parser.parse()`, which `generate()` calls inside `with chdir(output)`
+                        -- (Props/C08.formatting_runs_in_output_directory, decided on Gen/GenerateSteps): the directory it sees is the
+                        -- output directory, whatever directory the caller is in. Observed at run time as well (the working directory
+                        -- at `CodeFormatter.__init__` is recorded in every child process of the project-directory campaign).
+  | inputLocation       -- completes the location of the input (a relative input path, the directory against which a TEXT input's
+                        -- relative `$ref`s are resolved, the absolute form of a document's path used as its identity): WHICH document is
+                        -- read is part of the input; the path never reaches the output (differential runs from several directories)
+  | savedAndRestored    -- the context manager `chdir` itself: saves the directory, switches, restores in `finally` (Props/C20.cwd_restored)
+  | cliLayer            -- `__main__`: conversion of path arguments, discovery of the pyproject.toml that supplies OPTIONS (Props/C18)
+  deriving Repr, DecidableEq
+
+/-- every call in the source that reads or sets the process's working directory, or starts a child process that inherits it:
+((file, function, called expression), tag). A new reader of the working directory — a formatter handed `Path.cwd()` outside
+the `with chdir(output)` region, a tool started from somewhere else — is not on this list and breaks `cwd_reads_reviewed`. -/
+def reviewedCwdSites : List ((Nat × Nat × Nat) × CwdTag) :=
+  [((k! "__init__.py", k! "chdir", k! "Path.cwd"), .savedAndRestored),
+   ((k! "__init__.py", k! "chdir", k! "os.chdir"), .savedAndRestored),
+   ((k! "__init__.py", k! "generate", k! "input_.expanduser().resolve"), .inputLocation),
+   ((k! "__main__.py", k! "Config.validate_file", k! "Path(value).expanduser().resolve"), .cliLayer),
+   ((k! "__main__.py", k! "Config.validate_path", k! "Path(value).expanduser().resolve"), .cliLayer),
+   ((k! "__main__.py", k! "main", k! "Path.cwd"), .cliLayer),
+   -- `settings_path = Path.cwd()` when no settings path is given: black's project root / pyproject.toml, isort's settings
+   ((k! "format.py", k! "CodeFormatter.__init__", k! "Path.cwd"), .insideChdirOutput),
+   -- `ruff check --fix -` / `ruff format -`: the child discovers ruff.toml / pyproject.toml from the directory it inherits
+   ((k! "format.py", k! "CodeFormatter.apply_ruff_lint", k! "subprocess.run"), .insideChdirOutput),
+   ((k! "format.py", k! "CodeFormatter.apply_ruff_formatter", k! "subprocess.run"), .insideChdirOutput),
+   ((k! "parser/base.py", k! "Parser.__init__", k! "source.absolute"), .inputLocation),
+   ((k! "parser/base.py", k! "Parser.__init__", k! "Path.cwd"), .inputLocation),
+   ((k! "parser/graphql.py", k! "GraphQLParser._get_context_source_path_parts", k! "self.base_path.joinpath(s.path).resolve"), .inputLocation),
+   ((k! "parser/jsonschema.py", k! "JsonSchemaParser._get_context_source_path_parts", k! "self.base_path.joinpath(s.path).resolve"), .inputLocation),
+   ((k! "reference.py", k! "ModelResolver.__init__", k! "Path.cwd"), .inputLocation),
+   ((k! "reference.py", k! "ModelResolver.current_base_path_context", k! "(self._base_path / base_path).resolve"), .inputLocation),
+   ((k! "reference.py", k! "ModelResolver.resolve_ref", k! "Path(self.current_base_path, file_path).resolve"), .inputLocation),
+   ((k! "reference.py", k! "ModelResolver.resolve_ref", k! "target_path.resolve"), .inputLocation),
+   ((k! "reference.py", k! "ModelResolver.is_after_load", k! "Path(self._base_path, file_part).resolve"), .inputLocation)]
+
+/-- the sites of the formatting stage that look at the working directory: they must still exist (otherwise the review above
+talks about nothing) and carry the tag `insideChdirOutput` -/
+def expectedFormatterCwdSites : List (Nat × Nat × Nat) :=
+  [(k! "format.py", k! "CodeFormatter.__init__", k! "Path.cwd"),
+   (k! "format.py", k! "CodeFormatter.apply_ruff_lint", k! "subprocess.run"),
+   (k! "format.py", k! "CodeFormatter.apply_ruff_formatter", k! "subprocess.run")]
+
 /-! ### generic definitions used by the lemmas -/
 
 /-- a memo table and lookup-or-compute (`functools.lru_cache` without eviction) -/
